@@ -10,7 +10,7 @@
    readable (files_readable). *)
 From Coq Require Import List ZArith Bool.
 From PyrexModel Require Import IOModel.
-From PyrexProofs Require Import IO_writer IO_reader C11_proofs C12_proofs IO_filegen IO_analysis.
+From PyrexProofs Require Import IO_writer IO_reader C11_proofs C12_proofs IO_filegen IO_analysis IO_iterator.
 Import ListNotations.
 Open Scope Z_scope.
 
@@ -65,6 +65,26 @@ Theorem load_split_any_index : forall (rws : list row) (ti : list (Z * Z)),
   map (fun c => py_slice rws (fst c) (fst c + snd c)) ti.
 Proof. exact load_formula. Qed.
 Print Assumptions load_split_any_index.
+
+(* ---- the iterator as an object: op histories ----
+   An EventIterator made from in-range (start, stop, step) and any slice_range k >= 1, driven by
+   ANY history of next() / iter() calls (for loops, list(), islice are such histories): the j-th
+   next() delivers event a + j*step of the slice -- the specification data in every table and
+   total_events_thrown = floor((a+j*step+1) * total_thrown / n) -- while that index is < stop, and
+   StopIteration from then on; iter() delivers nothing and does not move the position.  Hence the
+   delivered indices are exactly the slice's indices in order, each once, whatever the chunk size. *)
+Theorem iterator_histories : forall st k a b s it ops s0 e0 p0, inv st -> ana_ok st -> 1 <= k ->
+  iter_init st a b s = inr (s0, e0, p0) -> it_new st k a b s = inr it ->
+  it_run st it ops = inr (spec_run st s0 e0 p0 0 ops).
+Proof. exact it_run_spec. Qed.
+Print Assumptions iterator_histories.
+
+(* the indices a history delivers are strictly increasing (no repetition, no reordering) *)
+Theorem delivered_in_order : forall ops a stop step j, 1 <= step ->
+  forall i1 i2 d, (i1 < i2)%nat -> (i2 < length (delivered a stop step j ops))%nat ->
+  nth i1 (delivered a stop step j ops) d < nth i2 (delivered a stop step j ops) d.
+Proof. exact delivered_increasing. Qed.
+Print Assumptions delivered_in_order.
 
 (* ---- analysis datasets as part of the state machine ----
    read_all_obs st i = (read_obs st i, read_ana st i): the six writer tables and the analysis
